@@ -258,17 +258,22 @@ fn parse_outcome(exit_code: Option<i32>, stdout: &str, stderr: &str, timed_out: 
     if let Some(done) = current.take() {
         errors.push(done);
     }
-    match (exit_code, success) {
-        (Some(0), Some(success)) => Outcome::Done {
+    // be liberal in what is accepted from the binary's wording: the exit code and the
+    // `-> <error>` list are what matters
+    match exit_code {
+        Some(0) => Outcome::Done {
             errors: Vec::new(),
-            success,
+            success: success.unwrap_or(0),
         },
-        (Some(1), Some(success)) if !errors.is_empty() => {
+        Some(1) if !errors.is_empty() => {
             let mut errors = errors;
             errors.sort();
-            Outcome::Done { errors, success }
+            Outcome::Done {
+                errors,
+                success: success.unwrap_or(0),
+            }
         }
-        (Some(1), None) => {
+        Some(1) => {
             // the logger prints " ERROR > message"
             let message = stderr
                 .split("ERROR")
@@ -279,8 +284,6 @@ fn parse_outcome(exit_code: Option<i32>, stdout: &str, stderr: &str, timed_out: 
                 .to_owned();
             Outcome::BatchErr(message)
         }
-        // what the binary printed is not understood (its wording may have changed): that is
-        // the harness's problem, not a violation
         _ => Outcome::BatchErr(format!(
             "harness: unparsable subprocess result: exit {:?}, stdout {:?}, stderr {:?}",
             exit_code, stdout, stderr
